@@ -36,9 +36,9 @@ RULE = (
     'A: one compile per case (subset of C01+C03 enumerations, cached, plus '
     'every connected 4-vertex graph / tree-5 / grid / vendor gate sets); '
     'B: every (circuit<=2 ops, labelled graph<=4 vertices, gate set, radix '
-    'pattern, placement) pair for is_compatible; non-trivial A = accepted '
-    'input whose output has >= 1 multi-qudit gate or a model wider than / '
-    'sparser than the input needs; B = pairs where the three conditions do '
+    'pattern, placement) pair for is_compatible; non-trivial A = ran and the '
+    'input circuit has >= 1 multi-qudit gate / the target is not an '
+    'identity; B = pairs where the three conditions do '
     'not all hold trivially (some condition false, or a multi-qudit gate '
     'on a non-complete graph)'
 )
@@ -104,9 +104,11 @@ def extra_cases(ctx: Ctx) -> list:
 
 def enumerate_cases(ctx: Ctx) -> list:
     """Subset of C01's enumeration: every circuit of <= 1 operation, every
-    variant / qutrit / constant / CZ-only case, and in the thorough tier all
-    of it; subset of C03's: every state, system and list case and the
-    level-1 unitaries (thorough: all)."""
+    variant / qutrit / constant / CZ-only case (thorough: every circuit of
+    <= 2 operations without CCX at levels 1-2, <= 1 operation at levels 3-4,
+    the variants); subset of C03's: every state, system and list case and
+    the level-1 unitaries (thorough: levels 1 and 4, permutations, diagonals,
+    identities, near-identities, generic, Toffoli, qutrit targets)."""
     a = c01.enumerate_cases(ctx)
     b = c03.enumerate_cases(ctx)
     if ctx.quick:
@@ -128,6 +130,25 @@ def enumerate_cases(ctx: Ctx) -> list:
                     'perm', 'generic', 'shift3', 'csum3', 'toffoli'))
         a = [c for c in a if keep1(c)]
         b = [c for c in b if keep3(c)]
+    else:
+        def keep1t(c: dict) -> bool:
+            s = c['input']
+            special = any(k in s for k in ('barrier', 'measure', 'blocked'))
+            nccx = sum(1 for o in s['ops'] if o[0] == 'CCX')
+            if c['level'] >= 3:
+                return len(s['ops']) <= 1 or (special and c['level'] == 3
+                                              and s['n'] == 2)
+            return (len(s['ops']) <= 2 and nccx == 0) or \
+                (len(s['ops']) == 1) or (special and c['level'] == 1)
+
+        def keep3t(c: dict) -> bool:
+            s = c['input']
+            if s['kind'] != 'unitary':
+                return True
+            return c['level'] in (1, 4) and s['gen'][0] not in (
+                'prod2', 'clifford1', 'qft', 'fredkin')
+        a = [c for c in a if keep1t(c)]
+        b = [c for c in b if keep3t(c)]
     cases = a + b + extra_cases(ctx)
     seen: set = set()
     out = []
@@ -163,8 +184,13 @@ def _judge_rec(case: dict, kind: str, rec: dict) -> list:
             f'{mname}',
         ))
     if ex['bad_gates']:
+        names = '+'.join(ex['bad_gates'])
+        if sq == 'sq:none-in-model' and all(
+                n in ('T', 'U3Gate', 'H', 'RZ', 'RX', 'RY', 'SX')
+                for n in ex['bad_gates']):
+            names = 'single-qudit-gates-left'
         out.append(F(
-            f'non-native-gates:{kind}:{"+".join(ex["bad_gates"])}:{sq}',
+            f'non-native-gates:{kind.replace("list-", "")}:{names}:{sq}',
             f'output contains {ex["bad_gates"]} (all gates: '
             f'{rec["gates_out"]}); native set is '
             f'{(ms or {}).get("gates", "the default set")}',
@@ -306,19 +332,22 @@ def _b_items(ctx: Ctx) -> list:
 def _b_signature(d: dict) -> str:
     why = []
     ops = d['ops']
-    if any(r != 2 for r in d['circuit_radixes'] + d['model_radixes']):
-        why.append('mixed-radix')
-    if any(len(o[1]) > 2 for o in ops):
-        why.append('3-qudit-gate')
     pl = d['placement']
-    if pl is not None:
+    rev = pl is not None and any(
         # an edge (a<b) of the circuit lands on (pl[a] > pl[b])
-        rev = any(
-            pl[min(o[1][i], o[1][j])] > pl[max(o[1][i], o[1][j])]
-            for o in ops for i in range(len(o[1]))
-            for j in range(i + 1, len(o[1]))
-        )
-        why.append('placement-reverses-an-edge' if rev else 'with-placement')
+        pl[min(o[1][i], o[1][j])] > pl[max(o[1][i], o[1][j])]
+        for o in ops for i in range(len(o[1]))
+        for j in range(i + 1, len(o[1]))
+    )
+    if rev and d['is_compatible'] is False:
+        why.append('placement-reverses-an-edge')
+    else:
+        if any(r != 2 for r in d['circuit_radixes'] + d['model_radixes']):
+            why.append('mixed-radix')
+        if any(len(o[1]) > 2 for o in ops):
+            why.append('3-qudit-gate')
+        if pl is not None:
+            why.append('with-placement')
     return (f'is_compatible-enumeration:says-{d["is_compatible"]}:'
             f'independent-{d["independent"]}:' + ','.join(why))
 
